@@ -303,7 +303,7 @@ func (sc *crashScenario) inspect(img *aquadb.MemDatabase, final *vblk) crashRec 
 	select {
 	case r := <-done:
 		rec["reopen"] = r
-	case <-time.After(30 * time.Second):
+	case <-time.After(5 * time.Minute):
 		rec["reopen"] = "hang"
 	}
 	if rec["reopen"] != "ok" {
@@ -435,8 +435,8 @@ func (sc *crashScenario) record(failAt int, w *vwriter) (*recDB, *aquadb.MemData
 	select {
 	case bc = <-finished:
 		wedged = note
-	case <-time.After(60 * time.Second):
-		wedged = "wedged (no progress for 60s after a failed write)"
+	case <-time.After(5 * time.Minute):
+		wedged = "wedged (no progress for 5 min after a failed write)"
 	}
 	var final *vblk
 	if bc != nil {
